@@ -624,10 +624,19 @@ func subWriteSide() mon.Sub {
 					c.Fail("wire/"+api, "masked output does not unmask to the original", det)
 					return
 				}
-			case "MaskFrame":
-				out = ws.MaskFrame(ws.NewBinaryFrame(p))
-			case "MaskFrameWith":
-				out = ws.MaskFrameWith(ws.NewBinaryFrame(p), [4]byte{1, 2, 3, 4})
+			case "MaskFrame", "MaskFrameWith":
+				f := ws.NewBinaryFrame(p)
+				if c.I/len(apis)/len(sizes) == 1 {
+					// the frame to be (re-)masked already carries a mask in its header (read from a client
+					// and forwarded): the copying helpers still must not touch the caller's payload
+					f.Header.Masked, f.Header.Mask = true, [4]byte{9, 8, 7, 6}
+					det["input_header_already_masked"] = true
+				}
+				if api == "MaskFrame" {
+					out = ws.MaskFrame(f)
+				} else {
+					out = ws.MaskFrameWith(f, [4]byte{1, 2, 3, 4})
+				}
 			case "UnmaskFrame":
 				f := ws.NewBinaryFrame(p)
 				f.Header.Masked, f.Header.Mask = true, [4]byte{5, 6, 7, 8}
